@@ -4,6 +4,7 @@
 #   builds clean -> demo must pass; applies patch -> builds -> baseline suite must pass -> demo must fail.
 # On success copies it to /verif/seeded/<name>/ with meta.json.  Worktree is removed afterwards.
 src="$1"; name="$2"; pid="$3"
+mkdir -p /tmp/wt
 wt=/tmp/wt/confirm-$name
 rm -rf "$wt"; git -C /repo worktree prune
 /verif/bin/mkworktree.sh "$wt" --build >/dev/null 2>&1 || { echo "$name: worktree build failed"; exit 2; }
